@@ -38,7 +38,9 @@ ASSUMPTIONS = ["the reference is HoloPy's own Lens(Mie) (a different code "
 TOLERANCES = {"mielens-vs-lens": 1e-5, "quad-refine": 1e-5,
               "aberration-zero": "bit-identical", "interpolation": 1e-8,
               "numexpr-shim": 1e-12, "lens-unequal-orders": 1e-7,
-              "ladder-convergence": 1e-8}
+              "ladder-convergence": 1e-8,
+              # 40x40-node quadrature of the wrapper vs the analytic theory
+              "large-detector-vs-mielens": 1e-3}
 TIMEOUT = 900
 
 AXES = {
@@ -66,6 +68,11 @@ def cases(tier, seed):
     out.append({"id": "interpolation-modes", "kind": "interp"})
     out.append({"id": "lens-orders", "kind": "orders", "tier": tier})
     out.append({"id": "numexpr-shim", "kind": "shim"})
+    # detectors with more points than fit one block of the wrapper's
+    # integrand (36x36, 40x30, 33x31 points)
+    for shp in ((36, 36), (40, 30), (33, 31)):
+        out.append({"id": "lens-large-detector:%dx%d" % shp,
+                    "kind": "largedet", "shape": list(shp)})
     # beyond the large-rho cut-off of the analytic theory (3.9 * quad_npts)
     for kr in (389.9, 390.1, 500.0):
         out.append({"id": "cutoff:krho=%r" % kr, "kind": "cutoff",
@@ -249,7 +256,54 @@ def _run_ab0(case, ck):
                     "AberratedMieLens(%r) differs from MieLens by %.2e "
                     "(m=%r x=%r kz=%r angle=%r)" % (ab, e, m, x, kz, ang))
             fps.append(fp_values(a))
+        # the same with non-default accuracy options of the calculator
+        for acc in ({"quad_npts": 200}, {"quad_npts": 60},
+                    {"interpolate_integrals": False, "quad_npts": 150}):
+            a = _field(det, sph, AberratedMieLens(
+                ab, ang, calculator_accuracy_kwargs=acc), _pol(30.0))
+            b = _field(det, sph, MieLens(ang, acc), _pol(30.0))
+            ck.trans += 2
+            e = float(np.abs(a - b).max() / np.abs(b).max())
+            ck.metric("aberration-zero", e)
+            ck.true("aberration-zero", e <= 1e-13,
+                    "AberratedMieLens(%r, accuracy %r) differs from MieLens "
+                    "with the same accuracy options by %.2e (m=%r x=%r "
+                    "kz=%r angle=%r)" % (ab, acc, e, m, x, kz, ang))
     return digest(*fps)
+
+
+def _run_largedet(case, ck):
+    """Lens(Mie) on a detector of > 1000 pixels: every pixel must agree with
+    the analytic theory and with the same pixel evaluated in a small call"""
+    import holopy as hp
+    from holopy.scattering.theory import MieLens, Lens, Mie
+    from holopy.scattering import Sphere
+    shp = tuple(case["shape"])
+    sph = Sphere(n=1.2 * H.NMED, r=5.0 / H.K, center=(1.8, 1.6, 20.0 / H.K))
+    det = hp.detector_grid(shp, 0.1)
+    N = 40
+    a = _field(det, sph, Lens(0.8, Mie(False, False), N, N), _pol(30.0))
+    b = _field(det, sph, MieLens(0.8), _pol(30.0))
+    ck.trans += 2
+    err = np.abs(a - b).reshape(-1, a.shape[-1]).max(1) / np.abs(b).max()
+    e = float(err.max())
+    ck.metric("large-detector-vs-mielens", e)
+    ck.true("large-detector", e <= TOLERANCES["large-detector-vs-mielens"],
+            "Lens(Mie, %dx%d nodes) on a %dx%d detector differs from MieLens "
+            "by %.2e of the peak field (worst pixel %d of %d)" %
+            (N, N, shp[0], shp[1], e, int(err.argmax()), err.size))
+    # the last row of pixels evaluated on its own
+    last = det.isel(x=slice(shp[0] - 1, shp[0]))
+    c = _field(last, sph, Lens(0.8, Mie(False, False), N, N), _pol(30.0))
+    ck.trans += 1
+    ax = list(det.dims).index("x")
+    full_last = np.take(a, [shp[0] - 1], axis=ax)
+    e2 = float(np.abs(full_last - c).max() / np.abs(b).max())
+    ck.metric("large-detector-row", e2)
+    ck.true("large-detector-row", e2 <= 1e-12, "the last pixel row of a "
+            "%dx%d detector differs by %.2e from the same row computed "
+            "alone" % (shp[0], shp[1], e2))
+    return digest(fp_values(a))
 
 
 def _run_interp(case, ck):
@@ -395,6 +449,7 @@ def run_case(case):
     ck = Checker()
     fp = {"vec": _run_vec, "ab0": _run_ab0, "interp": _run_interp,
           "orders": _run_orders, "shim": _run_shim, "cutoff": _run_cutoff,
+          "largedet": _run_largedet,
           "history": _run_history}[case["kind"]](case, ck)
     return ck.result(fp=fp)
 
